@@ -152,6 +152,75 @@ func work(w *mon.W) {
 	w.Cases("conn", uint64(w.Pick(40000, 1500000)), func(c *mon.Case) { oneConn(w, c, getC, srv) })
 	w.Cases("redirect", uint64(w.Pick(600, 20000)), func(c *mon.Case) { redirectCase(w, c, getC) })
 	w.Cases("get-helper", uint64(w.Pick(400, 10000)), func(c *mon.Case) { getHelperCase(w, c, getC) })
+	w.Cases("early-response", uint64(w.Pick(300, 6000)), func(c *mon.Case) { earlyResponseCase(w, c, getC) })
+}
+
+// earlyResponseCase: the peer answers an upload from its head alone (413, 401, a redirect)
+// and does not read the body; the client's write breaks (EPIPE) with the response there to
+// be read.  Do may report the error; if it reports success, what it returns is the response
+// the peer sent, read under the client's configuration like any other.
+func earlyResponseCase(w *mon.W, c *mon.Case, getC func(ccfg) *cengine) {
+	if hangs >= 3 {
+		return
+	}
+	r := c.R
+	cf := ccfg{stream: r.Bool(), noNorm: r.Bool()}
+	ce := getC(cf)
+	body := wire.PosBody(int(c.I), r.Int(20000, 70000))
+	respBody := r.Str("too large", "", "denied: "+strings.Repeat("x", 5000))
+	wb := []byte(fmt.Sprintf("HTTP/1.1 413 Request Entity Too Large\r\nContent-Length: %d\r\nx-lower-case: v\r\nConnection: close\r\n\r\n%s", len(respBody), respBody))
+	fr, _ := wire.FragSchedule(r, wb, nil)
+	ce.d.Buf = 4096
+	failAfter := r.Int(300, 4096, 5000, 9000)
+	n := 0
+	ce.d.Next = func() (net.Conn, error) {
+		n++
+		if n > 1 {
+			return crig.NewSeqConn(nil, true), nil
+		}
+		sc := crig.NewSeqConn([][][]byte{fr}, true)
+		sc.WriteFailAfter = failAfter
+		return sc, nil
+	}
+	defer ce.hc.CloseIdleConnections()
+	desc := fmt.Sprintf("POST with a %d-byte body, the peer answers 413 (%d-byte body, field x-lower-case) after %d request bytes and stops reading; streaming=%v header-name normalising off=%v", len(body), len(respBody), failAfter, cf.stream, cf.noNorm)
+	c.Detail = func() interface{} { return map[string]interface{}{"family": "early-response", "exchange": desc} }
+	req := protocol.AcquireRequest()
+	req.SetRequestURI("http://peer/upload")
+	req.Header.SetMethod("POST")
+	req.SetBody(body)
+	o := crig.Do(ce.hc, req, 20*time.Second)
+	protocol.ReleaseRequest(req)
+	w.Count("early_response_calls", 1)
+	if o.Hang {
+		hangs++
+		c.Violate("hang", "%s: Do did not return", desc)
+		return
+	}
+	if o.Panic != nil {
+		c.Violate(mon.PanicKey(o.Stack), "%s: panic %v", desc, o.Panic)
+		return
+	}
+	if o.Err != nil {
+		w.Count("early_response_reported_as_error", 1)
+		return
+	}
+	w.Count("early_response_returned", 1)
+	name := "X-Lower-Case"
+	if cf.noNorm {
+		name = "x-lower-case"
+	}
+	found := false
+	for _, h := range o.Hdrs {
+		if h[0] == name {
+			found = true
+		}
+	}
+	if o.Status != 413 || o.BodyErr != nil || string(o.Body) != respBody || !found {
+		c.Violate("response-mismatch", "%s: Do returned nil with status %d, %d body bytes (stream error %v), header fields %q; want 413, the %d-byte body and the field spelled %q", desc, o.Status, len(o.Body), o.BodyErr, o.Hdrs, len(respBody), name)
+		return
+	}
+	w.Shape(mon.Hash64("early-response", desc))
 }
 
 // getHelperCase: the Get / Post helpers return what Do plus reading the body returns: the
